@@ -1231,6 +1231,15 @@ class Interp:
         m = self.ctx.models.setitem_hook(self, base, idx, val, node)
         if m is not NotImplemented:
             return
+        if tag(base) == "maplit":
+            # {symbolic key: value} literal: a store under a key that is syntactically one of its keys replaces the value
+            # (in place: the pair list is shared by every alias); any other key is outside the fragment
+            pairs = base[1]
+            for i, (k, _v) in enumerate(pairs):
+                if (is_z3(k) and is_z3(idx) and k.eq(idx)) or (not is_z3(k) and not is_z3(idx) and k == idx):
+                    pairs[i] = (k, val)
+                    return
+            raise Unsupported("store into a dict literal under a new symbolic key", node)
         raise Unsupported("subscript store on %r" % (base,), node)
 
     def elem_term(self, v, elem):
@@ -1536,11 +1545,17 @@ class Interp:
     def abstract_blocks(self, stmts, fr):
         """statement ranges of the function body that the (two-run) contract abstracts: {id(first stmt): block}.  A block
         is named by the variables its first and last statements assign, so it survives line shifts."""
-        rl = getattr(self.ctx.reg, "rel_blocks", None)
-        if not rl or fr.fi is None or fr.fi.qualname not in rl or stmts is not fr.fi.node.body:
+        if fr.fi is None or stmts is not fr.fi.node.body:
+            return {}
+        rl = getattr(self.ctx.reg, "rel_blocks", None) or {}
+        specs = rl.get(fr.fi.qualname)
+        if specs is None:
+            c = self.ctx.reg.contracts.get(fr.fi.qualname)
+            specs = (c or {}).get("abstract_blocks")
+        if not specs:
             return {}
         out = {}
-        for spec in rl[fr.fi.qualname]:
+        for spec in specs:
             first = last = None
             for st in stmts:
                 names = self.assigned_names([st]) if not isinstance(st, ast.FunctionDef) else {st.name}
